@@ -407,6 +407,16 @@ func genC07(r *Rng, idx int, tier string) *Scenario {
 			sc.Steps = append(sc.Steps, st)
 		} else {
 			st := Step{Op: "kdf", Suite: &su, Nonce: r.Bytes(genLen512(r)), Secret: r.Bytes(genLen512(r)), SpiI: r.U64(), SpiR: r.U64()}
+			switch r.Intn(24) { // degenerate but legal values: all-zero / all-one octet strings, zero SPIs
+			case 0:
+				st.Nonce = make(Hex, len(st.Nonce))
+			case 1:
+				st.Secret = make(Hex, len(st.Secret))
+			case 2:
+				st.Secret = bytes.Repeat([]byte{0xff}, len(st.Secret))
+			case 3:
+				st.SpiI, st.SpiR = 0, 0
+			}
 			if r.Chance(1, 4) {
 				st.Nonce2 = r.Bytes(genLen512(r))
 			}
